@@ -32,6 +32,13 @@ def install_stubs() -> None:
             items = list(lst)
             if perm is not None:
                 lst[:] = [items[i] for i in perm]
+
+        class Random:                      # a private generator (random.Random(seed)) shuffles by the same arbitrary permutation
+            def __init__(self, seed=None):
+                pass
+
+            def shuffle(self, lst):
+                _R.shuffle(lst)
     PP.random = _R
 
 
